@@ -42,6 +42,8 @@ type fqComp struct {
 	cfg  []*fqV
 	seed int64
 	sync bool
+	maxEmitted int64 // greatest timestamp handed out by `next` so far
+	sawErr     bool  // a `next` of this sequence returned an error (an invalid configuration: no claim afterwards)
 }
 
 func init() { components["fq"] = &fqComp{} }
@@ -959,6 +961,7 @@ func (c *fqComp) Run(args []string) string {
 		}
 		// the pair stepped by `next` shares one set of configuration objects
 		shared := fqProtos(c.cfg)
+		c.maxEmitted, c.sawErr = 0, false
 		c.a = fqQueue(c.seed, shared, c.sync)
 		c.b = fqQueue(c.seed, shared, c.sync)
 		// monitor run on a further pair
@@ -984,11 +987,37 @@ func (c *fqComp) Run(args []string) string {
 			}
 		}
 		return "ok"
+	case "mark":
+		// a sync marker added to the RUNNING generator at its Latest(), the way Client.reset places it on a fresh
+		// one: Latest() is the maximum timestamp queued, also after any number of Next calls (seeded change
+		// c20_seed10 let it go stale once a single stream was left: a marker sorted in front of pending updates)
+		if c.a == nil {
+			return "noqueue"
+		}
+		la, lb := c.a.Latest(), c.b.Latest()
+		if la < c.maxEmitted && !c.sawErr {
+			// Latest() is the maximum timestamp of the values the generator holds or has produced: a marker
+			// placed there can never sort in front of an update that is still to come
+			return "viol:latest-below-an-emitted-timestamp"
+		}
+		for i, q := range []*queue.UpdateQueue{c.a, c.b} {
+			q.Add(&fpb.Value{Timestamp: &fpb.Timestamp{Timestamp: []int64{la, lb}[i]}, Repeat: 1, Value: &fpb.Value_Sync{Sync: 1}})
+		}
+		if la != lb {
+			return "nondet:latest"
+		}
+		return "latest=" + strconv.FormatInt(la, 10)
 	case "next":
 		if c.a == nil {
 			return "noqueue"
 		}
 		e1, e2 := fqNext(c.a), fqNext(c.b)
+		if e1.tag == "err" || e1.tag == "panic" {
+			c.sawErr = true
+		}
+		if e1.v != nil && e1.v.GetTimestamp().GetTimestamp() > c.maxEmitted {
+			c.maxEmitted = e1.v.GetTimestamp().GetTimestamp()
+		}
 		if e1.String() != e2.String() {
 			return "nondet:" + strings.ReplaceAll(e1.String()+"|"+e2.String(), " ", "_")
 		}
@@ -1539,7 +1568,14 @@ func fqSeq(cfg []*fqV, seed int64, sync bool, steps, agent int) []string {
 		toks = append(toks, v.token(n*v.cost()+48))
 	}
 	seq := []string{strings.Join(toks, " ")}
+	markAt := -1
+	if h := seed & 0x7fffffff; !sync && steps > 2 && h%3 == 0 {
+		markAt = 1 + int(h/3)%(steps-1) // a marker added to the running generator (configurations without the automatic one)
+	}
 	for i := 0; i < steps; i++ {
+		if i == markAt {
+			seq = append(seq, "mark")
+		}
 		seq = append(seq, "next")
 	}
 	if agent > 0 {
